@@ -217,3 +217,49 @@ Definition ppos_obs (run : N) (name : list N) (after ch : N) : option (res (N * 
   end.
 Definition wcol_obs (w : N) : option (N * N) :=
   if w <? gen_TPC_ANODE_WIRES then Some (wire_phi_index w, wire_to_pad_column w) else None.
+
+(* ---- what the property REQUIRES of a run number (model side of the differential) ------------------------ *)
+(* thresholds computed from the generated arms: the smallest `k..` arm that yields a map *)
+Definition wire_first_threshold : N :=
+  match first_threshold preamp_arms, first_threshold channel_arms with
+  | Some a, Some b => N.max a b
+  | _, _ => 0
+  end.
+Definition pad_first_threshold : N :=
+  match first_threshold pwb_arms with Some a => a | None => 0 end.
+
+
+(* C08: each table applies from the run its name documents until the next table's first run, runs before the first
+   map are errors, the simulation run maps like run 5000, and a selected map is a bijection.  Maps_proofs.v proves
+   that these "required" versions coincide with the model of the source arms (required_is_actual); the runner prints
+   the required ones, so that if a regenerated arm or table breaks a theorem, the differential run names the run
+   number on which the implementation departs from the property. *)
+Definition preamp_doc_arms := doc_arms preamp_table_runs.
+Definition channel_doc_arms := doc_arms channel_table_runs.
+Definition pwb_doc_arms := doc_arms pwb_table_runs.
+(* the simulation run number stands for run 5000 *)
+Definition doc_run (run : N) : N := if run =? sim_run then 5000 else run.
+(* the dispatch that the table names document -- independent of the `match run_number` arms *)
+Definition wire_dispatch_req (run : N) : option (N * N) :=
+  match dispatch preamp_doc_arms (doc_run run) with
+  | None => None
+  | Some p => match dispatch channel_doc_arms (doc_run run) with None => None | Some c => Some (p, c) end
+  end.
+Definition pwb_dispatch_req (run : N) : option N := dispatch pwb_doc_arms (doc_run run).
+Definition table_obs_req (n : N) (tbl : list N) : N * N * bool :=
+  let oks := filter (fun v => v <? n) tbl in
+  (lenN oks, hash_list tbl, negb (lenN oks =? 0)).
+Definition wire_table_obs_req (d : option (N * N)) := table_obs_req gen_TPC_ANODE_WIRES (wire_table d).
+Definition pad_table_obs_req (d : option N) := table_obs_req gen_TPC_PADS (pad_table d).
+Definition wpos_obs_req (run : N) (name : list N) (ch : N) : option (res N) :=
+  match find_a16 name, adc32_channel ch with
+  | Some b, Some c => Some (wire_position_d (wire_dispatch_req run) b c)
+  | _, _ => None
+  end.
+Definition ppos_obs_req (run : N) (name : list N) (after ch : N) : option (res (N * N)) :=
+  match find_pwb name with
+  | Some b =>
+      if existsb (N.eqb after) gen_after_ids && (gen_pad_channel_lo <=? ch) && (ch <=? gen_pad_channel_hi)
+      then Some (pad_position_d (pwb_dispatch_req run) b after ch) else None
+  | None => None
+  end.
